@@ -377,6 +377,10 @@ func (w *World) RealID(name string) string {
 	if m, ok := w.msgs[name]; ok {
 		return hnet.DefaultMsgID(m)
 	}
+	// a message the NUT published itself: its id is known once it was named
+	if id, ok := w.Names.IDOf(name); ok {
+		return id
+	}
 	return name
 }
 
